@@ -195,6 +195,9 @@ PROPS["C05"] = {
         {"pkg": "verifx/tree", "run": "^TestC05Arrivals$",
          "quick": {"checks": 120, "shards": 12, "timeout": 700},
          "thorough": {"checks": 2500, "shards": 16, "timeout": 1700}},
+        {"pkg": "verifx/tree", "run": "^TestC05Exhaustive$",
+         "quick": {"shards": 4, "timeout": 700, "env": {"VERIF_C05_BLOCKS": 4}},
+         "thorough": {"shards": 12, "timeout": 1700, "env": {"VERIF_C05_BLOCKS": 5}}},
     ],
 }
 
